@@ -280,3 +280,31 @@ Proof.
   split; [exact P|]. split; [exact Z0|].
   destruct (K P) as [T _]. rewrite T, Z0, add_zero. reflexivity.
 Qed.
+
+(* ------------------------------------------------------------------------------------------ *)
+(* the hypothesis on precisions is needed under 'precise'                                     *)
+(* ------------------------------------------------------------------------------------------ *)
+(* ES, 'precise': one line of 121.00 and a document charge of 0.023900 (six decimals), both at
+   21 % + 5.2 % surcharge, prices include VAT.  Gross 121.0239 (four decimals), category amount
+   21.004148 and surcharge 5.201027 (six decimals).  Gross + surcharge = 126.224927, i.e. 126.22,
+   but taking 21.004148 out at four decimals (21.0041) and putting 26.205175 back at four decimals
+   (26.2052) gives 126.2250, presented as 126.23. *)
+From Coq Require Import String.
+Definition surcharge_precision_witness : doc :=
+  let cb := mkCombo (bs "VAT") [] [] (Some (mkA 21 2)) (Some (mkA 52 3)) false (bs "standard+eqs") in
+  mkDoc 2 false (bs "VAT") 1
+        [mkLine (mkA 1 0) (mkItem (mkA 12100 2) None []) [] [] [] [cb]]
+        [] [mkDdc (mkA 23900 6) None None [cb]] [] [] [] None.
+
+Lemma surcharge_identity_needs_precision :
+  exists d t lcs,
+    only_included_tax_with_surcharges d /\ calculate d = Totals t /\
+    calc_lines (d_currency_rule d) (d_c d) (d_cur d) (d_rates d) (d_lines d) = Some lcs /\
+    t_twt t = mkA 12623 2 /\
+    rescale (add (doc_gross d lcs) (included_surcharge d lcs)) (d_c d) = mkA 12622 2.
+Proof.
+  exists surcharge_precision_witness. do 2 eexists.
+  split; [split; [discriminate|]; repeat constructor|].
+  split; [vm_compute; reflexivity|]. split; [vm_compute; reflexivity|].
+  split; vm_compute; reflexivity.
+Qed.
